@@ -15,6 +15,8 @@ import (
 func init() {
 	register("C38", checkC38)
 	addBreakers("C38",
+		Breaker{Name: "null-cursor-panics-again", File: "internal/storage/common/cursor.go",
+			Old: "\tif q == nil {\n\t\t// a JSON null resets the interface value\n\t\treturn nil, fmt.Errorf(\"invalid cursor: null\")\n\t}\n", New: "", Expect: "PANIC/decoders"},
 		Breaker{Name: "v1-script-var-panics-again", File: "internal/api/v1/controllers_transactions_create.go",
 			Old: "\t\t\t\treturn nil, fmt.Errorf(\"unmarshalling variable %q: %w\", k, err)", New: "\t\t\t\tpanic(err)", Expect: "PANIC/decoders"},
 		Breaker{Name: "saved-metadata-panics-again", File: "internal/log.go",
